@@ -32,3 +32,31 @@ func VP_C03_dynbt() {
 	}
 	vp.Cover("end")
 }
+
+// string lengths with the sign bit set (0x8000, 0xc000, 0xffff) followed by
+// that many bytes really present in the stream (as a root string, in a list, in
+// a compound): a negative declared length is an error however much data follows.
+func VP_C03_dynbt_negative_string() {
+	n := []int{0x8000, 0xc000, 0xffff}[vp.Choice(3)]
+	vp.SizeBound(n + 64)
+	vp.Unwind(n + 64)
+	body := make([]byte, n+8)
+	for i := range body {
+		body[i] = 'a' + byte(i%26)
+	}
+	str := append([]byte{byte(n >> 8), byte(n)}, body...)
+	var tag byte
+	var b []byte
+	switch vp.Choice(3) {
+	case 0:
+		tag, b = 8, str
+	case 1:
+		tag, b = 9, append([]byte{8, 0, 0, 0, 1}, str...)
+	default:
+		tag, b = 10, append(append([]byte{8, 0, 1, 'k'}, str...), 0)
+	}
+	var v Value
+	err := v.UnmarshalNBT(tag, &vpByteReader{b: b, fail: -1})
+	vp.Assert(err != nil, "a negative declared length is an error")
+	vp.Cover("end")
+}
